@@ -258,6 +258,8 @@ fn run_case(line: &str) -> String {
         ("abstract_ne", 2) => enc_b(js_op::abstract_ne(&args[0], &args[1])),
         ("strict_eq", 2) => enc_b(js_op::strict_eq(&args[0], &args[1])),
         ("strict_ne", 2) => enc_b(js_op::strict_ne(&args[0], &args[1])),
+        // the SAME instance passed twice (the pointer-identity shortcut of strict_eq; JS: `a === a`)
+        ("strict_eq_same", 1) => enc_b(js_op::strict_eq(&args[0], &args[0])),
         ("abstract_lt", 2) => enc_b(js_op::abstract_lt(&args[0], &args[1])),
         ("abstract_gt", 2) => enc_b(js_op::abstract_gt(&args[0], &args[1])),
         ("abstract_lte", 2) => enc_b(js_op::abstract_lte(&args[0], &args[1])),
